@@ -255,6 +255,8 @@ def cases(tier):
         ("swapaxes", "mg.swapaxes(x, 0, 2)", (2, 1, 3)), ("swapaxes/neg", "x.swapaxes(-1, 0)", (2, 3)),
         ("roll/flat", "mg.roll(x, 2)", (2, 3)), ("roll/axis", "mg.roll(x, 1, axis=1)", (2, 3)),
         ("roll/neg", "mg.roll(x, -1, axis=0)", (3, 2)), ("roll/tuple", "mg.roll(x, (1, 2), axis=(0, 1))", (2, 3)),
+        ("roll/0d-array-shift", "mg.roll(x, np.array(2), axis=1)", (2, 3)), ("roll/array-shift", "mg.roll(x, np.array([1, 2]), axis=(0, 1))", (2, 3)),
+        ("roll/list-shift", "mg.roll(x, [1, -1], axis=(1, 0))", (2, 3)),
         ("repeat/int", "mg.repeat(x, 2)", (2, 2)), ("repeat/axis", "mg.repeat(x, 2, axis=0)", (2, 2)),
         ("repeat/seq", "mg.repeat(x, [1, 0, 2], axis=1)", (2, 3)), ("repeat/0", "mg.repeat(x, 0)", (2,)),
         ("repeat/0d", "mg.repeat(x, 3)", ()), ("repeat/neg-axis", "mg.repeat(x, [2, 1], axis=-2)", (2, 2)),
